@@ -124,7 +124,13 @@ void cpc_union_alloc<A>::internal_update(S&& sketch) {
 
     // The following partially fixes the snowplow problem provided that the K's are equal.
     if (cpc_sketch_alloc<A>::flavor::EMPTY == initial_dest_flavor && lg_k == sketch.get_lg_k()) {
-      *accumulator = std::forward<S>(sketch);
+      // adopt the sketch together with its allocator: the accumulator object is released with
+      // accumulator->get_allocator(), so the block that holds it has to come from that same allocator
+      cpc_sketch_alloc<A>* adopted = new (AllocCpc(sketch.get_allocator()).allocate(1)) cpc_sketch_alloc<A>(std::forward<S>(sketch));
+      AllocCpc old_allocator(accumulator->get_allocator());
+      accumulator->~cpc_sketch_alloc<A>();
+      old_allocator.deallocate(accumulator, 1);
+      accumulator = adopted;
       return;
     }
 
